@@ -64,10 +64,16 @@ void h_strict(void) { mock_->strictOrder(); }
 void h_ignore_others(void) { mock_->ignoreOtherCalls(); }
 void h_expect(unsigned n, int fch) { exp_ = &mock_->expectNCalls(n, fn(fch)); }
 void h_exp_param(int pch, int value) { exp_->withParameter(pn(pch), value); }
-void h_exp_object(int osel) { exp_->onObject(&obj_[osel & 1]); }
+// object o1 is the NULL object in the -DO1_IS_NULL variant: an expectation on NULL is still an expectation on a specific object
+#ifdef O1_IS_NULL
+#define OBJ(osel) (((osel) & 1) ? (void*)&obj_[1] : (void*)0)
+#else
+#define OBJ(osel) ((void*)&obj_[(osel) & 1])
+#endif
+void h_exp_object(int osel) { exp_->onObject(OBJ(osel)); }
 void h_exp_return(int value) { exp_->andReturnValue(value); }
 void h_actual(int fch) { act_ = &mock_->actualCall(fn(fch)); }
-void h_act_object(int osel) { act_->onObject(&obj_[osel & 1]); }
+void h_act_object(int osel) { act_->onObject(OBJ(osel)); }
 void h_act_param(int pch, int value) { act_->withParameter(pn(pch), value); }
 int h_act_return(int dflt) { return act_->returnIntValueOrDefault(dflt); }
 void h_check(void) { mock_->checkExpectations(); }
